@@ -340,7 +340,7 @@ mut("d4_revert_output_values", "C02", "engine.py", "        result = np.column_s
     "        result = np.column_stack(values) if values else np.array(values)\n        return result\n\n    @property\n    def values(self)", "defect D4 as found at the pinned commit")
 mut("d7_revert_hedge_pow", "C02", "hedge.py", "        y = np.where(x <= 0.5, 2 * np.square(x), 1 - 2 * np.square(1 - x))",
     "        y = np.where(x <= 0.5, 2 * x**2, 1 - 2 * (1 - x) ** 2)",
-    "defect D7 (Extremely only) as found at the pinned commit: a needle (about one quick run in three shows it), expected to be caught by the thorough tier or a seed sweep rather than by every quick run (measured after round 10: 1 quick seed in 12 to 24)", needle=30)
+    "defect D7 (Extremely only) as found at the pinned commit: a needle (about one quick run in three shows it), expected to be caught by the thorough tier or a seed sweep rather than by every quick run (measured after round 10: 1 quick seed in 12 to 24)", needle=12)
 mut("d8_revert_function_scalar", "C02", "term.py", '        engine_variables["x"] = scalar(x)\n', '        engine_variables["x"] = x\n',
     "defect D8 (the x argument only) as found at the pinned commit")
 mut("c20_debugging_global_logger", "C20", "library.py", "        return self.logger.level == logging.DEBUG\n",
